@@ -17,6 +17,9 @@ HopsOk(span, durline, alarm) ==
 KillOk(L, W, wallms, jsig, jexit) ==
   IF W < L THEN jsig = 0 /\ jexit = 0                         \* jobs finishing earlier are unaffected
   ELSE jsig = 24 /\ wallms >= L * 1000 /\ wallms <= (L * 1000) + 1500   \* SIGXCPU at the deadline, about a second of jitter
+(* a job that does not care about the polite signal is terminated all the same: told at the deadline, gone (by whatever signal) *)
+(* within the same jitter of a further second                                                                              *)
+StubbornKillOk(L, W, wallms, jsig) == jsig # 0 /\ wallms >= L * 1000 /\ wallms <= (L * 1000) + 2500
 (* one task of a multi-VTODO execution request (limit L s or 0 = none, job time W s, prep = it can be started): *)
 (* what must happen to it whatever the other tasks of the request are - see ExecSeq.tla for the mechanism    *)
 Expected(t) == IF ~t.prep THEN [kind |-> "notrun", at |-> 0]
